@@ -124,7 +124,46 @@ def lab_leg(instance, depth, nshards, inst, seed, sim=None, overrides=None, env_
     return cached(tree_hash() + json.dumps(params, sort_keys=True), go)
 
 
-LAB_PROPS = ("C01", "C02", "C03", "C04", "C07", "C10", "C11", "C17", "C19")
+def units_leg(inst, seed, env_extra=None, tag=""):
+    params = dict(kind="units", inst=inst, seed=seed, env=env_extra, tag=tag)
+
+    def go():
+        os.makedirs(os.path.join(BUILD, "run"), exist_ok=True)
+        out = os.path.join(BUILD, "run", f"units_{inst[0]}_{seed}_{tag}_{os.getpid()}.json")
+        e = dict(env_extra or {})
+        e["VERIF_TAG"] = f"_{tag}_{os.getpid()}"
+        t0 = time.time()
+        shards = run_workers([([PY, os.path.join(HERE, "units_worker.py"), inst[0], inst[1], str(seed), out], e, out)])
+        return dict(params=params, shards=shards, wall=time.time() - t0)
+    return cached(tree_hash() + json.dumps(params, sort_keys=True), go)
+
+
+def slicer_leg(shapes, tag=""):
+    """shapes: list of (nr, nc, labels, nparts)"""
+    params = dict(kind="slicer", shapes=shapes, tag=tag)
+
+    def go():
+        os.makedirs(os.path.join(BUILD, "run"), exist_ok=True)
+        cmds = []
+        for nr, nc, labels, nparts in shapes:
+            for k in range(nparts):
+                out = os.path.join(BUILD, "run", f"slicer_{nr}_{nc}_{labels}_{k}_{nparts}_{tag}_{os.getpid()}.json")
+                cmds.append(([PY, os.path.join(HERE, "slicer_worker.py"), str(nr), str(nc), labels, str(k), str(nparts), out],
+                             {"VERIF_TAG": f"_{tag}_{os.getpid()}"}, out))
+        t0 = time.time()
+        shards = run_workers(cmds)
+        return dict(params=params, shards=shards, wall=time.time() - t0)
+    return cached(tree_hash() + json.dumps(params, sort_keys=True), go)
+
+
+SLICER_QUICK = [(1, 1, "default", 1), (1, 2, "default", 1), (2, 1, "default", 1), (2, 2, "default", 1), (1, 3, "default", 1),
+                (3, 1, "default", 1), (2, 3, "default", 2), (3, 2, "default", 2), (3, 3, "default", 4), (2, 3, "custom", 2),
+                (27, 1, "default", 2), (28, 1, "default", 2)]
+SLICER_THOROUGH = SLICER_QUICK + [(1, 4, "default", 1), (4, 1, "default", 1), (2, 4, "default", 2), (4, 2, "default", 2),
+                                  (3, 4, "default", 4), (4, 3, "default", 4), (4, 4, "default", 6), (3, 3, "custom", 4),
+                                  (3, 2, "custom", 2), (1, 27, "default", 1), (4, 4, "custom", 6)]
+
+LAB_PROPS = ("C01", "C02", "C03", "C04", "C07", "C10", "C11", "C17", "C19")      # properties decided on Lab instances
 
 
 def plan(prop, tier, seed):
@@ -141,6 +180,21 @@ def plan(prop, tier, seed):
             legs.append(lambda: lab_leg("LabPL", 1 if q else 2, 8 if q else 16, REALISTIC, seed))
             legs.append(lambda: lab_leg("LabPL", 2, 16, DECIMAL, seed, overrides=dict(DEC_OVR, Fracs="PL_FracsQuick", TUnits="QuickUnits"), tag="q2") if q
                         else lab_leg("LabPL", 2, 16, DECIMAL, seed, overrides=DEC_OVR, tag="dec"))
+    if prop in ("C05", "C12", "C03", "C04", "C10", "C19"):
+        if q:
+            legs.append(lambda: lab_leg("LabSOL", 1, 8, REALISTIC, seed))
+        else:
+            full = {"SolCases": "SOL_Cases", "FromCases": "SOL_FromFull"}
+            legs.append(lambda: lab_leg("LabSOL", 1, 16, REALISTIC, seed, overrides=full, tag="full"))
+            legs.append(lambda: lab_leg("LabSOL", 1, 16, DECIMAL, seed, overrides=full, tag="fulldec"))
+            legs.append(lambda: lab_leg("LabSOL", 1, 16, ("777.7", "31000"), seed, overrides=full, tag="fullodd"))
+    if prop in ("C06", "C14", "C19"):
+        legs.append(lambda: units_leg(REALISTIC, seed))
+        if not q:
+            legs.append(lambda: units_leg(DECIMAL, seed + 1))
+            legs.append(lambda: units_leg(("777.7", "31000"), seed + 2))
+    if prop == "C13":
+        legs.append(lambda: slicer_leg(SLICER_QUICK if q else SLICER_THOROUGH))
     return legs
 
 
@@ -198,7 +252,7 @@ def conclude(prop, tier, seed, legs, wall):
         for sh in leg["shards"]:
             summ["states"] += sh.get("distinct_states", 0)
             summ["transitions"] += sh["tlc"]["generated"] if "tlc" in sh else sh.get("transitions", 0)
-            summ["executed"] += sh["counts"].get("executed", 0)
+            summ["executed"] += sh["counts"].get("executed", 0) if leg["params"]["kind"] == "lab" else sh["evaluated"].get(prop, 0)
             summ["skipped_behind_divergence"] += sh["counts"].get("skipped_unreachable", 0)
             summ["evaluated"] += sh["evaluated"].get(prop, 0)
             for vc in sh["violation_counts"]:
